@@ -258,6 +258,43 @@ def rule_r7(facts, col):
                         "same side (aliasing &mut memory) is no longer refused", {})
 
 
+def _lock_bbs(e):
+    return {x.bb for x in walk(e) if x.k == "call" and (x.q == MUTEX_LOCK or x.q in CONDVAR_TIMED or x.q in CONDVAR_UNTIMED)}
+
+
+def rule_r9(facts, col):
+    """read-modify-write of the ring state happens under ONE lock acquisition"""
+    for body in facts.bodies:
+        if body.kind == "closure":
+            continue
+        for bb, fld, st in c01.ring_writes(body):
+            key = "%s:%s" % (body.q, fld)
+            wl = _lock_bbs(body.place_expr(st["dst"]))
+            rv = body.rvalue_expr(st["rv"])
+            stale = []
+            nreads = 0
+            for x in walk(rv):
+                is_read = (x.k == "field" and x.owner == c01.STATE_ADT) or \
+                    (x.k == "call" and (x.q or "").startswith(c01.STATE_ADT + "::"))
+                if not is_read:
+                    continue
+                rl = _lock_bbs(x)
+                if not rl:
+                    continue
+                nreads += 1
+                if wl and not (rl & wl):
+                    stale.append(show(x)[:60])
+            if not wl:
+                col.silent("C03.R9", key, body.where(bb), "write not through a visible guard")
+            elif stale:
+                col.bad("C03.R9", key, "%s:%d" % (st["sp"]["f"], st["sp"]["l"]),
+                        "BufferState.%s is written from a value that was read under a DIFFERENT lock acquisition (%s): a commit or "
+                        "consume by the other thread between the two acquisitions is overwritten (lost update; windows then overlap "
+                        "or committed samples vanish)" % (fld, stale[0]), {})
+            else:
+                col.ok("C03.R9", key, body.where(bb), "state read and written under the same guard (%d state reads)" % nreads)
+
+
 def run(ctx):
     facts = ctx.facts("default")
     rule_r1(facts, ctx)
@@ -267,6 +304,8 @@ def run(ctx):
     rule_r5(facts, ctx)
     rule_r6(facts, ctx)
     rule_r7(facts, ctx)
+    rule_r9(facts, ctx)
+    ctx.floor("C03.R9", 4, "writes of rpos/used (consume) and wpos/used (produce)")
     c01.rule_r4(facts, ctx, rule_id="C03.R8")
     ctx.floor("C03.R8", 2, "consume and produce bodies write only their own position")
     ctx.floor("C03.R1", 8, "callers of full_buffer/slice/slice_mut/window constructors + raw slice + 2 &self->&mut accessors")
